@@ -84,7 +84,7 @@ def compare(vec, line, v, pid, what, extra_key=""):
         v.violation("%s kind=%s" % (key_base, kind), desc,
                     {"vector": vec, "observed": {"status": status, "ret": ret, "rc": rc, "out": out, "post": post, "canary": canary}, "where": what})
         return False
-    if status.startswith("fault"):
+    if status.startswith("fault") or status.startswith("crash"):
         return rep("fault", "%s: the call faulted (%s: signal:offset relative to the buffer) - expected bytes %s" % (what, status, hexs(vec["post"])))
     if status != "ok":
         raise Infra("executor status %s for %s" % (status, key_base))
@@ -163,7 +163,7 @@ def replay(v, ex, bind, vectors, pid, tier, rnd, readback=False, publen=False):
                     g = dict(vec); g.update(op="get", path=gp, pre=vec["post"], ret=vec["rb"], rc=0,
                                             out=vec["rb"] if gp == "legacy" else vec["out"])
                     meta.append((g, "read-back after %s set" % vec["path"], " after=set/" + vec["path"]))
-    outs = ex.run(cmds)
+    outs = ex.run_robust(cmds)
     if len(outs) != len(cmds):
         raise Infra("executor answered %d lines for %d commands (exit %s): %s" % (len(outs), len(cmds), ex.returncode, ex.stderr[-800:]))
     bad = 0
@@ -260,7 +260,7 @@ def finish_events(evs, outs, v, pid):
         if t[0] != "R": raise Infra("bad executor answer " + line[:100])
         status, ret, rc, out, post, canary = t[1], t[2], int(t[3]), t[4], t[5], t[6]
         key = "view=%s op=%s path=%s field=%s" % (ev["view"], ev["op"], ev["path"], ev["field"] or ev["id"] or "-")
-        if status.startswith("fault"):
+        if status.startswith("fault") or status.startswith("crash"):
             v.violation(key + " kind=fault", "random call faulted (%s)" % status, {"event": ev, "status": status}); continue
         if status != "ok": raise Infra("executor status " + status)
         if canary != "0":
@@ -383,7 +383,7 @@ def replay_histories(v, ex, bind, hists, pid, rnd):
             cur[o["buf"]] = o["post"]
             meta.append((vec, "history %d step %d (%s)" % (hi, k + 1, " ; ".join("%s %s.%s/%s" % (x["op"], x["view"], x["field"], x["path"]) for x in h["ops"][max(0, k - 3):k + 1])),
                          " hist"))
-    outs = ex.run(cmds)
+    outs = ex.run_robust(cmds)
     if len(outs) != len(cmds):
         raise Infra("executor answered %d lines for %d commands: %s" % (len(outs), len(cmds), ex.stderr[-500:]))
     bad = 0
@@ -445,7 +445,7 @@ def finish_hist_events(evs, outs, v, pid):
         t = line.split()
         status, ret, rc, out, post, canary = t[1], t[2], int(t[3]), t[4], t[5], t[6]
         key = "view=%s op=%s path=%s field=%s" % (ev["view"], ev["op"], ev["path"], ev["field"] or "-")
-        if status.startswith("fault"):
+        if status.startswith("fault") or status.startswith("crash"):
             v.violation(key + " kind=fault", "call inside a random history faulted (%s)" % status, {"event": ev}); break
         if canary != "0":
             v.violation(key + " kind=canary", "call inside a random history modified memory outside its buffer", {"event": ev}); break
